@@ -68,12 +68,12 @@ void ldb_filemeta_init(ldb_filemeta_t *meta) {
 void ldb_filemeta_clear(ldb_filemeta_t *meta) { }
 int ldb_table_filename(char *buf, size_t size, const char *dbname, uint64_t num) {
   __CPROVER_assert(dbname == g_rep->dbname, "table names are formed in the database directory");
-  g_sc_tfn_calls++; buf[0] = 0; g_nm_buf = buf; g_nm_kind = LDB_FILE_TABLE; g_nm_num = num;
+  g_sc_tfn_calls++; buf[0] = 0; g_nm_buf = buf; g_nm_kind = LDB_FILE_TABLE; g_nm_num = num; g_pin_buf = buf; g_pin_kind = g_nm_kind; g_pin_num = num;
   return 1;   /* names fit (ldb_repair's path length check); the code aborts otherwise */
 }
 int ldb_sstable_filename(char *buf, size_t size, const char *dbname, uint64_t num) {
   __CPROVER_assert(dbname == g_rep->dbname, "table names are formed in the database directory");
-  g_sc_sfn_calls++; buf[0] = 0; g_nm_buf = buf; g_nm_kind = NM_SST; g_nm_num = num;
+  g_sc_sfn_calls++; buf[0] = 0; g_nm_buf = buf; g_nm_kind = NM_SST; g_nm_num = num; g_pin_buf = buf; g_pin_kind = g_nm_kind; g_pin_num = num;
   return 1;
 }
 int ldb_file_size(const char *filename, uint64_t *size) {
@@ -160,7 +160,7 @@ void h_scan(void) {
     CHECK(g_sc_it_verify == rep->options.paranoid_checks, "scan: block checksums are verified iff paranoid_checks");
     CHECK(g_sc_firsts == 1 && g_sc.pos == g_sc_n && g_sc_iter_destroys == 1, "scan: every entry is visited, from the first; the iterator is released");
     if (g_rt_calls == 0) CHECK(g_arch_calls == 0, "scan: a readable table is not archived by the scan itself");
-    CHECK(t->meta.number == in_number && t->meta.file_size == size, "scan: the record carries the table's number and size");
+    CHECK(t->meta.number == in_number && (g_rt_calls == 1 || t->meta.file_size == size), "scan: the record carries the table's number and size (the size is replaced by repair_table when the table is rebuilt)");
     if (g_sc_F < g_sc_n) {
       CHECK(g_sc_small_copies == 1 && g_sc_small_src == g_sc_keybase + g_sc_F, "scan: smallest = the FIRST parsable internal key");
       CHECK(g_sc_large_copies >= 1 && g_sc_large_src == g_sc_keybase + g_sc_L, "scan: largest = the LAST parsable internal key");
